@@ -16,6 +16,87 @@ TRUST = (
 
 # property id -> (level, technique, text, note, design section)
 CHECKS = {
+    "C01": (
+        "model_checking",
+        "explicit-state BFS of (wrapper stack x tabular MDP state x counters) with the real env.step; action trees for classic control; reference MDP with auto-reset",
+        "For every wrapper stack (depth<=1 and TimeLimit-containing depth-2; depth-3 thorough) over every 2-state tabular MDP (all transition tables, terminal/initial "
+        "sets, time limits) all states reachable from reset are explored with the real env.step over every in-space action and every key of K; each transition is "
+        "judged against a reference MDP with auto-reset (reward/flags of the transition taken, fresh initial state with clocks and counters restarted and its own "
+        "observation when done, successor otherwise). The five classic-control environments (bare / TimeLimit(3)) are explored as complete action trees from reset "
+        "and hand-placed near-terminal states against the functional decomposition, and the same MDPs are stepped through LeraxToGymEnv.",
+        TRUST,
+        "5/C01",
+    ),
+    "C03": (
+        "exploration",
+        "exhaustive enumeration of all done patterns x spanning input set x (gamma, lambda) grid on the real GAE routine; float64 recurrence + corollaries",
+        "Every rollout length up to 6 (8 thorough), all 2^T done patterns, (gamma,lambda) in {0,.5,.9,1}^2 and a spanning set of reward/value/bootstrap vectors "
+        "(GAE is linear in them) are evaluated by the real RolloutBuffer.compute_returns_and_advantages and compared with the recurrence of the statement, the "
+        "lambda=1 Monte-Carlo and lambda=0 TD corollaries and bitwise non-interference across every episode end; the multi-environment clause runs through the real PPO iteration.",
+        TRUST,
+        "5/C03",
+    ),
+    "C07": (
+        "exploration",
+        "exhaustive enumeration of replay batches over a finite flag/action/reward alphabet x all action-value orderings on the real dqn_loss / sac_train; closed-form float64 targets and gradients",
+        "All batches of 1-2 (3 thorough) transitions over every (done,timeout) combination, action, next state and reward alphabet, with tabular online/target Q-functions ranging over all strict "
+        "orderings (so Double DQN, vanilla DQN and online self-evaluation give different numbers), are pushed through the real DQN.dqn_loss_grad; SAC.sac_train is run on buffers holding exactly one batch "
+        "with linear critics from a weight alphabet and SGD swapped in so the applied critic gradient is read back exactly. Loss values, gradients (targets constant), critic invariance under the actor branch "
+        "and gate behaviour are compared with float64 closed forms.",
+        TRUST,
+        "5/C07",
+    ),
+    "C08": (
+        "exploration",
+        "exhaustive grid of rollout buffers straddling both clip edges and all value-clip regions on the real ppo/a2c/reinforce loss functions; float64 objectives, finite-difference gradients, clip->Adam reference",
+        "Every buffer of 1-3 (4 thorough) rows over a grid of advantages, probability ratios on both sides of both clip edges, value/return configurations inside and beyond the value clip, all flag and "
+        "coefficient settings, evaluated by the real static loss functions with a tabular policy whose parameters are the per-row logits/values; loss, every reported statistic, gradients (against central "
+        "differences of the float64 objective), the zero-gradient corollary for clipped samples, ratios=1/KL=0 on buffers collected by the real collector, and two consecutive optimiser updates against a "
+        "float64 clip-by-global-norm then Adam reference.",
+        TRUST,
+        "5/C08",
+    ),
+    "C13": (
+        "model_checking",
+        "explicit-state BFS over all wrapper stacks (depth<=2, 3 thorough) x tabular MDPs with the real env.step and component functions; declared-change table reference",
+        "Every stack of documented wrappers (all orders) over every 2-state tabular MDP is explored from reset over every outer action (including out-of-space values) and key; each transition and each "
+        "functional component (transition, reward, terminal, truncate, observation, action_mask, infos, spaces, unwrapped) is compared with the declared-change table composed over the inner reference MDP; "
+        "TimeLimit(N) for N=1..5 alone and doubled against the reference's own episode counter; constructibility of every documented wrapper.",
+        TRUST,
+        "5/C13",
+    ),
+    "C14": (
+        "exploration",
+        "exhaustive enumeration of space programs (all kinds, nesting depth<=2) x single-fault candidate values x all ordered pairs; pure-Python membership/equality reference",
+        "All spaces over a leaf alphabet (Discrete, Box with finite/half-infinite/infinite/degenerate/huge bounds, MultiBinary, MultiDiscrete) combined by Tuple and Dict to depth 2; for each, members at every "
+        "bound corner and every single way of leaving the set are fed to the real contains; sample/canonical/flatten_sample/eq/hash/gym round trip are checked against a reference written from the statement.",
+        TRUST,
+        "5/C14",
+    ),
+    "C15": (
+        "exploration",
+        "exhaustive parameter grids x full supports / quadrature grids for all seven distribution classes; float64 closed forms; deterministic key block for sampling clauses",
+        "Every distribution class over parameter grids (logit alphabets incl. ties and near-deterministic laws, locations, scales, bounds, action_dims splits, flat vs sequence forms): prob=exp(log_prob), total mass, "
+        "closed-form densities, mode/samples in support, sample_and_log_prob coherence, entropy, product-law additivity; sampling frequencies on a fixed 4096-key block with exact tail bounds.",
+        TRUST + " The sampling clauses are decided on a fixed finite key block (exhaustive=false).",
+        "5/C15",
+    ),
+    "C16": (
+        "exploration",
+        "exhaustive enumeration of every non-empty mask x logit alphabet x policy call modes; float64 conditional-law reference",
+        "Every non-empty mask for 2-4 (5) categories, every per-dimension mask combination for multi-categorical and Bernoulli laws, over a logit alphabet with ties and masked argmax; end to end through the real "
+        "MLPActorCriticPolicy / MLPQPolicy / SAC policy in keyed, key-less, action_and_value, evaluate_action and epsilon-greedy modes, eager and under jit.",
+        TRUST + " Frequency clauses use a fixed key block with Bernstein bounds (exhaustive=false for keys).",
+        "5/C16",
+    ),
+    "C20": (
+        "model_checking",
+        "exhaustive orbit exploration of the real float32 gait-phase map per (frequency, dt) until the orbit closes; grid enumeration of randomisation ranges and initial states",
+        "The real advance_gait_phase is iterated until its orbit closes (all reachable phase states) for 42 frequencies x 2 control steps, plus 20000-step scans judged in float64; randomisers, initial(), "
+        "sample_command and env.transition of the three G1 tasks over range configurations and key alphabets against model-diff, range, kinematics (MuJoCo-C) and phase invariants.",
+        TRUST,
+        "5/C20",
+    ),
     "C04": (
         "model_checking",
         "exhaustive enumeration of all tiny tabular MDPs x all action scripts through the real on-policy collector; reference-collector trace validation",
